@@ -80,7 +80,7 @@ def run(ids):
     ids = ids or sorted(x for x in os.listdir(nd) if os.path.isdir(os.path.join(nd, x)))
     rp = os.path.join(nd, "RESULTS.json")
     allres = json.load(open(rp)) if os.path.exists(rp) else {}
-    with ThreadPoolExecutor(max_workers=3) as ex:
+    with ThreadPoolExecutor(max_workers=int(os.environ.get('NEUTRAL_WORKERS', '3'))) as ex:
         for nid, res in ex.map(run_one, ids):
             allres[nid] = res
             for pid, r in res.items():
